@@ -309,8 +309,23 @@ def check_dense(ctx):
         if not ok_i:
             ctx.violation(rule, "store|index", s.loc(), "the store is not labels[start:end, columns]", found=[valkey(i) for i in idx])
             continue
+        if isinstance(idx[1], SliceV) and "icolumns" in valkey(idx[1]):
+            # columns written as a range first .. first + k: equal to the anomaly's icolumns only when these are k consecutive
+            # positions - something a test of single entries (icolumns[0], icolumns[-1], len) cannot establish, since the
+            # affected columns are not reported in increasing order (MVCAPA lists them by decreasing saving)
+            fk = " ".join(c.key for c, v in p.facts)
+            whole = any(w in fk for w in ("diff(", "sort", "minall", "maxall", "unique", "all(", "any(", "argsort"))
+            found = f"labels[.., {valkey(idx[1])[:90]}] under {[c.key[:70] for c, v in p.facts if 'icolumns' in c.key][:2]}"
+            if whole:
+                ctx.undecided(rule, "store|columns", s.loc(), "the columns of an anomaly are marked through a slice guarded by a test over all of its icolumns: whether that test implies k consecutive positions is not decided", found=found)
+            else:
+                ctx.violation(rule, "store|columns", s.loc(), "the columns of an anomaly are marked through a slice first .. first + k although nothing on the path establishes that its icolumns are k consecutive positions (they are reported in no particular order): other columns than the affected ones get the label", found=found, expected="labels[start:end, icolumns]")
+            first = False
+            continue
         lo_k, hi_k, col_k = valkey(idx[0].lo), valkey(idx[0].hi), valkey(idx[1])
-        ok = ".left" in lo_k and ".right" in hi_k and "icolumns" in col_k and ".right" not in lo_k and ".left" not in hi_k
+        # the anomaly's icolumns entry itself: nothing is applied to it afterwards (no subscript, slice or call selects a part)
+        tail = col_k[col_k.rindex("icolumns") + len("icolumns"):] if "icolumns" in col_k else "("
+        ok = ".left" in lo_k and ".right" in hi_k and "[" not in tail and "(" not in tail and ".right" not in lo_k and ".left" not in hi_k
         # open/closed adjustment: +1 on the start iff the interval is open on the left,
         # +1 on the end iff it is closed on the right (decided per path from the branch facts)
         start_open = end_closed = None
@@ -340,7 +355,18 @@ def check_dense(ctx):
         ctor = [e for e in p.events if e.kind == "pandas_ctor" and e.data["which"] == "frame"]
         oki = bool(ctor) and isinstance(ctor[-1].data.get("index"), Num) and nf_equal(ctor[-1].data["index"].nf, sym("index")) and isinstance(ctor[-1].data["data"], Num) and ctor[-1].data["data"].arr is a
         if not oki:
+            from ..values import DictV
+
+            d = ctor[-1].data["data"] if ctor else None
+            comp = getattr(d, "comp", None) if isinstance(d, DictV) else None
+            if comp is not None and "columns" in valkey(comp["key"]):
+                ctx.violation(rule, "frame", ctor[-1].loc(), "the dense frame is built from a dict keyed by (a text made from) the input's column labels: columns whose labels are equal, or print alike, collapse into one, so the output no longer has one label column per input column", found=f"pd.DataFrame({{{valkey(comp['key'])[:60]}: ...}})", expected="pd.DataFrame(labels, index=index, columns=[...]) - one column per position")
+                return
+            if ctor and isinstance(ctor[-1].data.get("index"), Num) and nf_equal(ctor[-1].data["index"].nf, sym("index")) and not isinstance(d, Num):
+                ctx.undecided(rule, "frame", ctor[-1].loc(), "the dense frame is not built from the label matrix itself: whether it has one column per input column, in order, is not decided", found=valkey(d)[:100])
+                return
             ctx.violation(rule, "frame", f.loc(), "the label matrix is not returned as a frame on the given index", found=[valkey(e.data.get("index")) for e in ctor])
+            return
     ctx.holds(rule, "frame", f.loc(), f"on all {len(rets)} paths the label matrix is returned as a DataFrame carrying the given index")
 
 
@@ -356,7 +382,8 @@ def check_formatter(ctx):
     c04.check_formatter(ctx, cls)
     kept = []
     for o in ctx.obs[before:]:
-        if "FORMATTER" in o.rule and ("icolumns" in o.key or o.status == "UNDECIDED"):
+        # icolumns[i] belongs to interval i: both columns of the output list the anomalies in the order they came in
+        if "FORMATTER" in o.rule and ("icolumns" in o.key or "intervals" in o.key or o.status == "UNDECIDED"):
             o.rule = f"{rule} ({o.rule})"
             kept.append(o)
     ctx.obs[before:] = kept
